@@ -251,9 +251,9 @@ def parts(tier):
         return [CH("decision", "vflib.props.c13:scen_decision", {}, shards=7, timeout=170, path_timeout=30, mode="CH-P"),
                 CH("api_pattern_objects", "vflib.props.c13:scen_api", {}, shards=16, timeout=170, path_timeout=30),
                 CH("cli", "vflib.props.c13:scen_cli", {}, shards=16, timeout=170, path_timeout=30)]
-    return [CH("decision", "vflib.props.c13:scen_decision", {}, shards=7, timeout=250, path_timeout=30, mode="CH-P"),
-            CH("api_pattern_objects", "vflib.props.c13:scen_api", {}, shards=16, timeout=250, path_timeout=30),
-            CH("cli", "vflib.props.c13:scen_cli", {}, shards=16, timeout=250, path_timeout=30)]
+    return [CH("decision", "vflib.props.c13:scen_decision", {}, shards=7, timeout=150, path_timeout=30, mode="CH-P"),
+            CH("api_pattern_objects", "vflib.props.c13:scen_api", {}, shards=16, timeout=150, path_timeout=30),
+            CH("cli", "vflib.props.c13:scen_cli", {}, shards=16, timeout=150, path_timeout=30)]
 
 
 META = {
